@@ -13,11 +13,22 @@ import (
 	"seehuhn.de/go/pdf"
 	"seehuhn.de/go/pdf/internal/debug/memfile"
 	"seehuhn.de/go/pdf/zzverif/ref/codecs"
+	"seehuhn.de/go/pdf/zzverif/ref/pdffile"
+	"seehuhn.de/go/pdf/zzverif/ref/pdfsyn"
 )
 
 // configurations ------------------------------------------------------------
 
 var srcConfigs = []string{"none", "rc4-128", "aes-128"}
+
+// srcByHand is an extra source configuration: an unencrypted PDF 1.7 file
+// that is written without the library under test (the framework's reference
+// writer ref/pdffile and printer ref/pdfsyn: classic cross-reference table,
+// names with every byte outside the regular printable range, and the number
+// sign, in the #xx form). A defect of the library's Writer cannot change what
+// such a source says.
+const srcByHand = "by-hand"
+
 var tgtConfigs = []string{"1.4", "1.7-aes128", "2.0", "2.0-aes256"}
 
 // tgtRC4 is an extra target: PDF 1.4 with RC4-128 (per-object keys like
@@ -68,6 +79,16 @@ const nestedKey = pdf.Name("N")
 var dictKeys = []pdf.Name{"A", "B"}
 
 const stmKey = pdf.Name("K")
+
+// entryKey is the key of the dictionary entry that holds the item: the key of
+// its position (/A, /B, /K, /N), or, for an item of kind 'y', the name of the
+// name family the item stands for.
+func entryKey(base pdf.Name, it Item) pdf.Name {
+	if it.K == 'y' {
+		return pdf.Name(nameString(it.R))
+	}
+	return base
+}
 
 // plainData is the decoded content of stream object j.
 func plainData(j, variant int) []byte {
@@ -451,8 +472,10 @@ func (s *source) itemObj(it Item, j, p int) pdf.Object {
 	case 'A':
 		return pdf.Array{s.itemObj(it.inner(), j, p)}
 	case 'T':
-		return pdf.Dict{nestedKey: s.itemObj(it.inner(), j, p)}
-	case 'i':
+		return pdf.Dict{entryKey(nestedKey, it.inner()): s.itemObj(it.inner(), j, p)}
+	case 'k':
+		return pdf.Name(nameString(it.R))
+	case 'i', 'y':
 		return itemInt(j, p)
 	case 's':
 		return itemStr(j, p)
@@ -514,6 +537,9 @@ func describeSource(g Graph, cfg string) *source {
 
 // buildSource writes the graph with pdf.Writer into memory.
 func buildSource(g Graph, cfg string) (*source, error) {
+	if cfg == srcByHand {
+		return buildSourceByHand(g)
+	}
 	v, opt, err := writerFor(cfg)
 	if err != nil {
 		return nil, err
@@ -548,16 +574,16 @@ func buildSource(g Graph, cfg string) (*source, error) {
 		case 'D':
 			d := pdf.Dict{}
 			for p, it := range o.It {
-				d[dictKeys[p]] = s.itemObj(it, j, p)
+				d[entryKey(dictKeys[p], it)] = s.itemObj(it, j, p)
 			}
 			err = w.Put(ref, d)
-		case 'r':
+		case 'r', 'q':
 			err = w.Put(ref, s.itemObj(o.It[0], j, 0))
 		case 'S':
 			d := pdf.Dict{}
 			pIt, kIt, kPos := o.stmParts()
 			if len(kIt) > 0 {
-				d[stmKey] = s.itemObj(kIt[0], j, kPos)
+				d[entryKey(stmKey, kIt[0])] = s.itemObj(kIt[0], j, kPos)
 			}
 			plain := plainData(j, o.V)
 			raw := plain
@@ -666,6 +692,117 @@ func buildSource(g Graph, cfg string) (*source, error) {
 	return s, nil
 }
 
+// toSyn translates a value built from the library's value types into the value
+// type of the reference printer.
+func toSyn(obj pdf.Object) (pdfsyn.Value, error) {
+	switch x := obj.(type) {
+	case nil:
+		return pdfsyn.NullV(), nil
+	case pdf.Integer:
+		return pdfsyn.IntV(int64(x)), nil
+	case pdf.String:
+		return pdfsyn.StrV(string(x)), nil
+	case pdf.Name:
+		return pdfsyn.NameV(string(x)), nil
+	case pdf.Reference:
+		return pdfsyn.RefV(int64(x.Number()), int64(x.Generation())), nil
+	case pdf.Array:
+		v := pdfsyn.Value{K: pdfsyn.Array}
+		for _, e := range x {
+			ev, err := toSyn(e)
+			if err != nil {
+				return v, err
+			}
+			v.A = append(v.A, ev)
+		}
+		return v, nil
+	case pdf.Dict:
+		v := pdfsyn.Value{K: pdfsyn.Dict}
+		for _, key := range x.SortedKeys() {
+			ev, err := toSyn(x[key])
+			if err != nil {
+				return v, err
+			}
+			v.D = append(v.D, pdfsyn.Entry{Key: []byte(key), Val: ev})
+		}
+		return v, nil
+	}
+	return pdfsyn.Value{}, fmt.Errorf("toSyn: %T cannot be written by hand", obj)
+}
+
+// buildSourceByHand writes the graph without the library under test: the
+// objects are printed by ref/pdfsyn and laid out by ref/pdffile (one revision,
+// classic cross-reference table). Object j of the graph is indirect object j+1,
+// the free object follows, then the document catalogue and an empty page tree,
+// then auxiliary objects. Streams: the variants plain, /FlateDecode and
+// indirect /Length.
+func buildSourceByHand(g Graph) (*source, error) {
+	s := describeSource(g, srcByHand)
+	n := len(g)
+	catalog, pages := int64(n+2), int64(n+3)
+	nextAux := n + 4
+	objs := []pdffile.ObjDef{{Num: n + 1, Free: true}}
+	objs = append(objs,
+		pdffile.ObjDef{Num: int(catalog), Val: pdfsyn.DictV("Type", pdfsyn.NameV("Catalog"), "Pages", pdfsyn.RefV(pages, 0))},
+		pdffile.ObjDef{Num: int(pages), Val: pdfsyn.DictV("Type", pdfsyn.NameV("Pages"), "Kids", pdfsyn.ArrV(), "Count", pdfsyn.IntV(0))})
+	for j, o := range g {
+		def := pdffile.ObjDef{Num: j + 1}
+		var val pdf.Object
+		switch o.K {
+		case 'i':
+			val = objInt(j)
+		case 's':
+			val = objStr(j)
+		case 'A':
+			a := make(pdf.Array, len(o.It))
+			for p, it := range o.It {
+				a[p] = s.itemObj(it, j, p)
+			}
+			val = a
+		case 'D':
+			d := pdf.Dict{}
+			for p, it := range o.It {
+				d[entryKey(dictKeys[p], it)] = s.itemObj(it, j, p)
+			}
+			val = d
+		case 'r', 'q':
+			val = s.itemObj(o.It[0], j, 0)
+		case 'S':
+			d := pdf.Dict{}
+			if len(o.It) > 0 {
+				d[entryKey(stmKey, o.It[0])] = s.itemObj(o.It[0], j, 0)
+			}
+			def.Stream = plainData(j, o.V)
+			switch o.V {
+			case stmPlain:
+			case stmFlate:
+				d["Filter"] = pdf.Name("FlateDecode")
+				def.Stream = deflate(def.Stream)
+			case stmIndLength:
+				lv := pdfsyn.RefV(int64(nextAux), 0)
+				def.LengthOverride = &lv
+				objs = append(objs, pdffile.ObjDef{Num: nextAux, Val: pdfsyn.IntV(int64(len(def.Stream)))})
+				nextAux++
+				s.numAux++
+			default:
+				return nil, fmt.Errorf("object %d (%s): this stream variant is not written by hand", j, o)
+			}
+			val = d
+		default:
+			return nil, fmt.Errorf("object %d (%s) cannot be written by hand", j, o)
+		}
+		v, err := toSyn(val)
+		if err != nil {
+			return nil, fmt.Errorf("object %d (%s): %w", j, o, err)
+		}
+		def.Val = v
+		objs = append(objs, def)
+	}
+	rev := pdffile.Revision{Kind: "table", Objs: objs, Trailer: []pdfsyn.Entry{{Key: []byte("Root"), Val: pdfsyn.RefV(catalog, 0)}}}
+	s.data = pdffile.Write([]pdffile.Revision{rev}, pdffile.Knobs{Version: "1.7"})
+	return s, nil
+}
+
 func (s *source) open() (*pdf.Reader, error) {
 	return pdf.NewReader(bytes.NewReader(s.data), int64(len(s.data)), &pdf.ReaderOptions{ErrorHandling: pdf.ErrorHandlingReport})
 }
@@ -722,6 +859,15 @@ func (s *source) verify() error {
 			}
 			if !bytes.Equal(data, want) {
 				return fmt.Errorf("object %d: stream data reads back differently", j)
+			}
+			if s.cfg == srcByHand {
+				// the entries of the stream dictionary read back as described
+				var f fails
+				ck := newChecker(s, "", nil, &f)
+				ck.plainValue(o, j, got, "source")
+				if len(f.list) > 0 {
+					return fmt.Errorf("object %d (%s) reads back wrong: %s", j, o, f.list[0].what)
+				}
 			}
 			continue
 		}
